@@ -609,7 +609,11 @@ func (t *fnTrans) selectInstr(in *ssa.Select) {
 	if t.S.bv {
 		t.assume(fmt.Sprintf("(and (bvsle %s %s) (bvslt %s %s))", t.S.intLit(fmt.Sprint(lo), tInt), idx, idx, t.S.intLit(fmt.Sprint(len(in.States)), tInt)))
 	} else {
-		t.assume(fmt.Sprintf("(and (<= %d %s) (< %s %d))", lo, idx, idx, len(in.States)))
+		los := fmt.Sprint(lo)
+		if lo < 0 {
+			los = fmt.Sprintf("(- %d)", -lo)
+		}
+		t.assume(fmt.Sprintf("(and (<= %s %s) (< %s %d))", los, idx, idx, len(in.States)))
 	}
 	// a case on a nil channel is never chosen
 	for i, s := range in.States {
